@@ -30,6 +30,8 @@ RULE = (
     "exhaustive: all strings of length<=L over a 25-symbol alphabet with one representative per lexical "
     "byte class (L=3 quick, 4 thorough, plus L=5 over a 16-symbol sub-alphabet in thorough); random: strings "
     "of length<=64 biased to escapes/octal/backslash-EOL/#xx/hex. Each string x BUFSIZ in {1,2,3,4,7,4096}. "
+    "long: 1000-9000 repetitions of one of 33 units (every white-space byte, digits, letters, delimiters, escapes, comments), bare or inside "
+    "a literal string / hex string / array, between ordinary tokens, x BUFSIZ in {61,4096,65536} (a fifth of the 924 combinations per quick run, all in thorough). "
     "distinct = distinct byte strings; non-trivial = length>=2 and not all white space (a string on which at "
     "least one multi-byte construct or token boundary can interact with a refill)."
 )
